@@ -137,7 +137,7 @@ def generate(rng, tier, boost):
     common = [1, 2, 3, 0x81, 0x82, 0x83, 0, 4, 0x1f, 0x20, 0x21, 0x22, 0x23, 0x41, 0x62, 0x63, 0x9f, 0xa2, 0xc3, 0xe3, 0xff, 0x7f, 0x80]
 
     # 1. every hash type at least once, both engines, random everything else
-    n = 6000 if big else 700
+    n = 9000 if big else 700
     for k in range(n):
         t = small_tx(rng)
         nin = len(t[1])
@@ -149,7 +149,7 @@ def generate(rng, tier, boost):
             cases.append((302 if k % 3 else 301, [script, t, idx, ht]))
 
     # 2. all 256 hash types for a fixed (tx, script, idx): exhaustive per transaction
-    ntx = 40 if big else 2
+    ntx = 48 if big else 2
     for k in range(ntx):
         nin = rng.choice([1, 2, 3, 5])
         t = small_tx(rng, nin=nin, nout=rng.choice([0, 1, nin - 1, nin, 5]))
